@@ -180,6 +180,46 @@ func c04SelfFeeding(c *core.Ctx) {
 				fmt.Sprintf("%s accumulates into %s without first resetting it unconditionally: when a stored summary is recalculated the previous value is counted again, so calculating twice gives a different document", fd.Name(), ks))
 		}
 	}
+	// a field that is assigned, after the loop, from a local accumulator that never takes its
+	// value from the field: the previous value cannot be counted again
+	for _, fd := range pass {
+		info := fd.Pkg.TypesInfo
+		ld := core.NewLocalDefs(info, fd.Decl.Body)
+		ast.Inspect(fd.Decl.Body, func(m ast.Node) bool {
+			as, ok := m.(*ast.AssignStmt)
+			if !ok || len(as.Lhs) != 1 || len(as.Rhs) != 1 || core.FieldOf(info, as.Lhs[0]) == nil {
+				return true
+			}
+			r := ast.Unparen(as.Rhs[0])
+			if u, ok := r.(*ast.UnaryExpr); ok && u.Op == token.AND {
+				r = ast.Unparen(u.X)
+			}
+			v := core.VarOf(info, r)
+			if v == nil || v.IsField() || !isAmountLike(v.Type()) {
+				return true
+			}
+			self, fed := false, false
+			for _, def := range ld.All(v) {
+				if def.RHS == nil {
+					continue
+				}
+				ast.Inspect(def.RHS, func(k ast.Node) bool {
+					if id, ok := k.(*ast.Ident); ok && info.Uses[id] == types.Object(v) {
+						self = true
+					}
+					if e, ok := k.(ast.Expr); ok && sameLoc(info, e, as.Lhs[0]) {
+						fed = true
+					}
+					return true
+				})
+			}
+			if self && !fed {
+				n++
+				c.Ob("C04-R1", fmt.Sprintf("%s#fresh-accumulator:%s", fd.Name(), types.ExprString(as.Lhs[0])), as.Pos(), true, "")
+			}
+			return true
+		})
+	}
 	if n < 1 {
 		c.Ob("C04-R1", "UNRESOLVED:accumulated-fields", token.NoPos, false, fmt.Sprintf("only %d accumulated fields found in the tax total pass", n))
 	}
